@@ -698,12 +698,13 @@ static Case fixed_chain(unsigned ci)
 	C.cfg.anchors.push_back({ ca_name(n, 0), keys[n], true });
 	return C;
 }
-static void mutation_case(unsigned ci, unsigned k, size_t off, uint8_t mask, bool in_sig)
+static void mutation_case(unsigned ci, unsigned k, size_t off, uint8_t mask, unsigned in_sig_mode)
 {
 	static std::map<unsigned, std::pair<Case, std::vector<xl::BuiltCert>>> cache;
 	if (!cache.count(ci)) { Case C = fixed_chain(ci); auto b = build_chain(C); cache[ci] = { C, b }; }
 	Case &C = cache[ci].first;
 	std::vector<xl::BuiltCert> &built = cache[ci].second;
+	bool in_sig = (in_sig_mode & 1) != 0;   // bit 0: signature (else signed part); bit 1: subtract the mask instead of XOR
 	if (k >= built.size() || mask == 0) return;
 	size_t base = in_sig ? built[k].sig_off : built[k].tbs_off, len = in_sig ? built[k].sig_len : built[k].tbs_len;
 	if (off >= len) return;
@@ -715,17 +716,17 @@ static void mutation_case(unsigned ci, unsigned k, size_t off, uint8_t mask, boo
 		VF_CHECK(ok.err == 0, "harness: fixed chain %u (%s) is not accepted (error %u)", ci, describe(C).c_str(), ok.err);
 		checked[ci] = true;
 	}
-	ders[k][base + off] ^= mask;
+	if (in_sig_mode >= 2) ders[k][base + off] = (uint8_t)(ders[k][base + off] - mask); else ders[k][base + off] ^= mask;
 	LibOut lib = run_lib(ders, C.cfg, (off & 1) != 0, ci + (unsigned)off, false, off % 3 == 0 ? 0 : 50);
-	VF_CHECK(lib.err != 0, "accepted chain #%u (%s): byte %zu of the %s of certificate %u XOR %02x is still accepted", ci, describe(C).c_str(), off, in_sig ? "signature" : "signed part", k, mask);
+	VF_CHECK(lib.err != 0, "accepted chain #%u (%s): byte %zu of the %s of certificate %u %s %02x is still accepted", ci, describe(C).c_str(), off, in_sig ? "signature" : "signed part", k, in_sig_mode >= 2 ? "minus" : "XOR", mask);
 	stats.cls(fmt("mutation/%s/%s", in_sig ? "signature" : "tbs", ERRNAME(lib.err)));
-	stats.eval_h(fnv(fmt("mut/%u/%u/%zu/%02x/%d", ci, k, off, mask, (int)in_sig)));
+	stats.eval_h(fnv(fmt("mut/%u/%u/%zu/%02x/%u", ci, k, off, mask, in_sig_mode)));
 }
 
 void target_run(Tape &t)
 {
 	unsigned m = t.u8();
-	if (m == 0xF0) { unsigned ci = t.u8(), k = t.u8(); size_t off = t.u16(); uint8_t mask = t.u8(); bool in_sig = t.u8() != 0; mutation_case(ci, k, off, mask, in_sig); return; }
+	if (m == 0xF0) { unsigned ci = t.u8(), k = t.u8(); size_t off = t.u16(); uint8_t mask = t.u8(); unsigned in_sig = t.u8() & 3; mutation_case(ci, k, off, mask, in_sig); return; }
 	Case C = generate(t);
 	check_case(C, t);
 }
@@ -742,11 +743,16 @@ void target_enum(int shard, int nshards)
 			size_t len = in_sig ? built[k].sig_len : built[k].tbs_len;
 			for (size_t off = 0; off < len; off++) {
 				static const uint8_t MASKS[] = { 0x01, 0x80, 0x10, 0xFF };
-				unsigned nm = th ? 3 : 1;
+				// signatures are short: every mask, plus "one less" / "two less" (length and count bytes of the encoding)
+				unsigned nm = (th || in_sig) ? 4 : 1;
 				for (unsigned mi = 0; mi < nm; mi++) {
 					if ((n++ % (uint64_t)nshards) != (uint64_t)shard) continue;
-					uint8_t mask = th ? MASKS[mi] : MASKS[(off + k) % 4];
+					uint8_t mask = (th || in_sig) ? MASKS[mi] : MASKS[(off + k) % 4];
 					enum_tape({ 0xF0, (uint8_t)ci, (uint8_t)k, (uint8_t)(off >> 8), (uint8_t)off, mask, (uint8_t)in_sig });
+				}
+				if (in_sig) for (uint8_t d = 1; d <= 2; d++) {
+					if ((n++ % (uint64_t)nshards) != (uint64_t)shard) continue;
+					enum_tape({ 0xF0, (uint8_t)ci, (uint8_t)k, (uint8_t)(off >> 8), (uint8_t)off, d, 3 });
 				}
 			}
 		}
